@@ -303,6 +303,27 @@ func runC17Bubble(dir string, c BackupCase, info *h.Info) *h.Violation {
 				}
 				// (it reported success: then it counts as a write like any other)
 				done = true
+			case "noop":
+				// a call that succeeds without changing anything: the newest value put again (a client
+				// repeating a put whose reply it lost), the active version activated, an absent secret
+				// deleted. Unless the implementation saves the file all the same (then it IS a write),
+				// there is nothing new to back up.
+				before, _ := os.ReadFile(p)
+				switch in, err := d.Info(su.DB(), "k"); {
+				case i%3 == 0 && err == nil && len(in.Versions) > 0:
+					if sv, err := d.GetVersion(su.DB(), "k", in.Versions[len(in.Versions)-1]); err == nil {
+						d.Put(su.DB(), "k", sv.Value)
+					}
+				case i%3 == 1 && err == nil:
+					d.Activate(su.DB(), "k", in.ActiveVersion)
+				default:
+					d.Delete(su.DB(), "never-existed")
+				}
+				if after, _ := os.ReadFile(p); bytes.Equal(before, after) {
+					info.Class("a-call-that-succeeds-without-writing")
+					continue
+				}
+				done = true
 			case "activate":
 				if in, err := d.Info(su.DB(), "k"); err == nil && len(in.Versions) > 0 && in.Versions[len(in.Versions)-1] != in.ActiveVersion {
 					done = d.Activate(su.DB(), "k", in.Versions[len(in.Versions)-1]) == nil
@@ -487,7 +508,7 @@ func genBackupCase(rt *rapid.T) BackupCase {
 	sort.Ints(ws)
 	c.Writes = ws
 	if rapid.IntRange(0, 1).Draw(rt, "kinds") == 0 {
-		pool := []string{"put", "put", "activate", "delver", "delver", "del", "failput", "failput", "auditfail"}
+		pool := []string{"put", "put", "activate", "delver", "delver", "del", "failput", "failput", "auditfail", "noop", "noop"}
 		if rapid.IntRange(0, 5).Draw(rt, "big") == 0 {
 			pool = append(pool, "putbig") // (costly: every later save rewrites more than a megabyte)
 		}
